@@ -111,7 +111,10 @@ def wide_slot(a, n):
         return None
     first = n == 1 and a.offset % 4 == 0
     if first or (a.tier == "thorough" and n % 25 == 0):
-        big = ((a.offset // 4) + n) % 2 == 1 and a.deadline >= 40  # 2048 dimensions: about 45 s
+        slot = (a.offset // 4) + n
+        if slot % 2 == 0:
+            return {"scenario": "long"}  # 25-29 members of tiny dimension, about 15 s
+        big = slot % 4 == 1 and a.deadline >= 40  # 2048 dimensions: about 45 s
         return {"scenario": "wide", "wide_size": "big" if big else "small"}
     return None
 
